@@ -4,7 +4,57 @@ each execution link receives during the command's tick (`rx*`), what the command
 failed (`cmd_c_*`, `cmd_o_*`), and every instrument's order table afterwards (`ord*`: orders of
 instruments outside the filter untouched, addressed orders of matching instruments cancel-in-flight).
 Positions and prices of every instrument are printed after every tick (`pos*`, `price*`: a command leaves them untouched). The spec view is the
-model restricted to those keys (the model is proved to satisfy the property in Props/C19.lean). -/
+model restricted to those keys (the model is proved to satisfy the property in Props/C19.lean).
+
+Configuration shapes (C19's own set-up op, interpreted here and in `harness/src/bin/c19.rs` before the shared
+protocol takes over): `cfg K <letters> V <direct|system>` before `init`.
+* `K`: one letter of `S P p F O` per instrument of the following `init` line - the instrument KIND the engine is
+  built with (spot / perpetual / perpetual quoted in base and settled in a third asset / future / option). The
+  engine model has no instrument kind: filters, orders, positions and both commands are the same for every kind,
+  so the letters only have to be well-formed and as many as the instruments.
+* `V system`: every `cancel_orders` / `close_positions` command is also issued through a real `System` handle;
+  the event that reaches the engine's feed must be that very command: `sysfeed <event digest>` and `syseq 1`
+  precede the tick's observations. -/
 open BarterModel.Driver BarterModel.Driver.EngineCommon
+
+structure CSt where
+  s : St
+  kinds : Option String
+  sys : Bool
+  /-- a `cfg` line was seen and no `init` yet: `ev` / `algo` are rejected (`bad-op`) -/
+  pending : Bool
+
+def kindsOk (k : String) : Bool := k.toList.all fun c => "SPpFO".toList.contains c
+
+def withCfg (d : Drv St) : Drv CSt where
+  init := ⟨d.init, none, false, false⟩
+  step c toks :=
+    let pass (c : CSt) : CSt × List String :=
+      let (s', o) := d.step c.s toks
+      ({ c with s := s' }, o)
+    match toks with
+    | ["cfg", "K", k, "V", v] =>
+      if kindsOk k && (v == "direct" || v == "system") then (⟨c.s, some k, v == "system", true⟩, ["cfg-set"])
+      else (c, ["bad-op"])
+    | "cfg" :: _ => (c, ["bad-op"])
+    | "init" :: rest =>
+      match c.kinds with
+      | some k =>
+        -- `<on|off> L <letters> I <defs...>`
+        if rest.length < 4 || k.length != rest.length - 4 then (c, ["bad-op"]) else pass { c with kinds := none, pending := false }
+      | none => pass { c with pending := false }
+    | "ev" :: _ | "algo" :: _ =>
+      if c.pending then (c, ["bad-op"]) else
+      match toks with
+      | ["ev", cmd, f] =>
+        let (c', o) := pass c
+        if c.sys && (cmd == "cancel_orders" || cmd == "close_positions") && o != ["bad-op"] then
+          match resolveEvent c.s.eng [cmd, f] with
+          | some ev => (c', ["sysfeed " ++ eventDigest c.s.eng (fixExchange c.s.eng ev), "syseq 1"] ++ o)
+          | none => (c', o)
+        else (c', o)
+      | _ => pass c
+    | _ => pass c
+
 def main (args : List String) : IO UInt32 :=
-  runMain model (restrict ["rx", "cmd", "ord", "pos", "price", "panic", "bad-op"] model) args
+  runMain (withCfg model) (withCfg (restrict ["rx", "cmd", "ord", "pos", "price", "panic", "bad-op", "sys", "cfg"] model)) args
